@@ -329,14 +329,14 @@ func ruleM3(c *Ctx, id string) {
 	_, pos, val, _ := storedConst(fi, "Maxfilesize")
 	advOK := false
 	if val != nil {
-		if cl, ok := stripConv(val).(*ssa.Call); ok && cl.Call.StaticCallee() == maxfs {
+		if cl, ok := stripConv(val).(*ssa.Call); ok && staticCallee(cl) == maxfs {
 			advOK = true
 		}
 	}
 	R.Check(advOK, id, "FSINFO|Maxfilesize is MaxFileSize()", P.Pos(pos), "the advertised maximum is the function the enforcement compares with", "same function", "advertised and enforced maximum are computed differently")
 	isMax := func(v ssa.Value) bool {
 		cl, ok := stripConv(v).(*ssa.Call)
-		return ok && cl.Call.StaticCallee() == maxfs
+		return ok && staticCallee(cl) == maxfs
 	}
 	// guard: "X > MaxFileSize()" false edge / "X <= MaxFileSize()" true edge where X involves val
 	var guardOn func(fn *ssa.Function, at *ssa.BasicBlock, related func(ssa.Value) bool) bool
@@ -350,7 +350,7 @@ func ruleM3(c *Ctx, id string) {
 			if !ok {
 				continue
 			}
-			h := hc.Call.StaticCallee()
+			h := staticCallee(hc)
 			if h == nil || !isPrivateHelper(h) || h.Blocks == nil || h == fn {
 				continue
 			}
